@@ -43,7 +43,7 @@ LABELS = ["second_pass_cycles", "second_pass_all_closed", "half_hystereses_first
 
 
 def bounds(tier):
-    return {"sequence_length": "2..%d" % (4 if tier == "quick" else 6),
+    return {"sequence_length": "2..%d" % (5 if tier == "quick" else 6),
             "refinement": "one inserted non-reversal sample at every position incl. the end, base length 2..%d"
                           % (3 if tier == "quick" else 4)}
 
@@ -55,10 +55,10 @@ def options(tier):
 def cases(tier):
     q = tier == "quick"
     out = []
-    for n in range(2, (4 if q else 6) + 1):
+    for n in range(2, (5 if q else 6) + 1):
         c = {"kind": "count", "n": n, "_weight": 8 ** n}
         if n >= 4:
-            c["_split"] = 2 * n - 2
+            c["_split"] = 2 * n
         out.append(c)
     for n in range(2, (3 if q else 4) + 1):
         for p in range(1, n + 1):
